@@ -22,7 +22,10 @@ Record lcase := mkLcase {
   lc_marks : list (N * bool);        (* per action name: does the script TEXT mark it `?` (names are unique per line and step) *)
   lc_ran : nat; lc_count : Z; lc_timeout : Z; lc_tempo : Z;
   lc_spot : N;                       (* 0 none, 1 keep running, 2 all exit 0 by themselves, 3 one exits non-zero *)
-  lc_rdv : bool;                     (* the actions of the play rendezvous: they must all run at the same instant *)
+  lc_rdv : N;                        (* 1: the actions of the play rendezvous (they must all run at the same instant);
+                                        2: the same actor runs the same action twice at once (a scene named twice in
+                                        a group): csv rows and ledger rows of one action cannot be paired one to one,
+                                        the bracket check is skipped; 0: neither *)
   lc_launch : Z; lc_exit_t : Z; lc_exit : Z;
   lc_cleanups : list clrow; lc_ledger : list lrow; lc_csv : list crow }.
 
@@ -383,7 +386,7 @@ Definition tempo_exact_bad (c : lcase) (sk : list (ev * N)) : bool :=
 (** rendezvous plays: every action waits until all the others have started, so
     all the intervals the commands experienced contain one common instant. *)
 Definition rendezvous_bad (c : lcase) : bool :=
-  lc_rdv c &&
+  (lc_rdv c =? 1)%N &&
   let big := 4000000000000000000 in
   let maxs := fold_left (fun m r => Z.max m (lr_start r)) (lc_ledger c) 0 in
   let mine := fold_left (fun m r => if lr_end r <? 0 then m else Z.min m (lr_end r)) (lc_ledger c) big in
@@ -406,7 +409,7 @@ Definition c04_oracle_mask (c : lcase) : N :=
      (N.add (bit (barrier_bad led sk O O (t_begin c) (t_begin c)) 2%N)
      (N.add (bit (tempo_bad led sk (act_bounds led sk acts O (t_begin c)) || tempo_exact_bad c sk) 4%N)
      (N.add (bit (rows_bad c) 8%N)
-     (N.add (bit (brackets_bad c sk) 16%N) (bit incomplete 32%N)))))
+     (N.add (bit (negb (lc_rdv c =? 2)%N && brackets_bad c sk) 16%N) (bit incomplete 32%N)))))
   end).
 
 Definition c04_oracle_bad (c : lcase) : bool := negb (c04_oracle_mask c =? 0)%N.
